@@ -94,8 +94,23 @@ static void freeze(const std::string &dir) {
         EncoderBuffer eb; if (enc.EncodePointCloudToBuffer(*p, &eb).ok()) emit(eb, method == POINT_CLOUD_KD_TREE_ENCODING ? "pckd" : "pcseq"); } } }
 }
 
+// boundary-size streams: the format derives field widths from declared counts (sequential mesh indices: uint8 below 256 points,
+// uint16 below 65536, varint below 2^21, uint32 above), so streams with counts exactly at and next to those limits are frozen too
+static void freeze_boundary(const std::string &dir) {
+  for (uint32_t n : {255u, 256u, 257u, 65535u, 65536u, 65537u, 2097151u, 2097152u, 2097153u}) for (int raw = 0; raw < 2; raw++) {
+    Mesh m; m.set_num_points(n); GeometryAttribute ga; ga.Init(GeometryAttribute::POSITION, nullptr, 3, DT_UINT8, false, 3, 0); int id = m.AddAttribute(ga, true, n);
+    std::vector<uint8_t> z(3 * (size_t)n); for (size_t i = 0; i < z.size(); i++) z[i] = (uint8_t)((i / 3) % 7); m.attribute(id)->buffer()->Update(z.data(), z.size());
+    Mesh::Face f; f[0] = PointIndex(n - 1); f[1] = PointIndex(0); f[2] = PointIndex(n - 2); m.AddFace(f); f[0] = PointIndex(n / 2); f[1] = PointIndex(n - 1); f[2] = PointIndex(1); m.AddFace(f); f[0] = PointIndex(3); f[1] = PointIndex(2); f[2] = PointIndex(n - 3); m.AddFace(f);
+    Encoder enc; enc.SetEncodingMethod(MESH_SEQUENTIAL_ENCODING); enc.SetSpeedOptions(5, 5); if (raw) enc.options().SetGlobalBool("compress_connectivity", true);
+    EncoderBuffer eb; if (!enc.EncodeMeshToBuffer(m, &eb).ok()) continue;
+    char name[64]; snprintf(name, sizeof name, "bnd_seqmesh_%u_%s.drc", n, raw ? "cc" : "direct"); std::ofstream f2(dir + "/" + name, std::ios::binary); f2.write(eb.data(), eb.size()); f2.close();
+    std::vector<uint8_t> b(eb.data(), eb.data() + eb.size()); printf("%s %s\n", name, decode_digest(b).c_str());
+  }
+}
+
 int main(int argc, char **argv) {
   if (argc >= 3 && !strcmp(argv[1], "freeze")) { freeze(argv[2]); return 0; }
+  if (argc >= 3 && !strcmp(argv[1], "freeze-boundary")) { freeze_boundary(argv[2]); return 0; }
   if (argc >= 3 && !strcmp(argv[1], "digest")) {
     for (int i = 2; i < argc; i++) { std::ifstream f(argv[i], std::ios::binary); std::vector<uint8_t> b((std::istreambuf_iterator<char>(f)), std::istreambuf_iterator<char>()); std::string e; std::string d = decode_digest(b, &e);
       const char *bn = strrchr(argv[i], '/'); printf("%s %s\n", bn ? bn + 1 : argv[i], d.empty() ? ("DECODE-FAILED:" + e).c_str() : d.c_str()); }
